@@ -433,6 +433,10 @@ func c14Ctxs() []c14Ctx {
 		{"ctx-alias-named-random", "SELECT {X} AS random, a AS date FROM t", "r"},
 		{"ctx-insert-into-column-now", "INSERT INTO u(id, now, c) VALUES(5, {X}, 1)", ""},
 		{"ctx-update-column-now", "UPDATE u SET now = {X}, c = 2", ""},
+		// an identifier that ENDS in a function name, written flush against "(", before the real call
+		{"ctx-table-name-ends-in-time-paren", "INSERT INTO uptime(name, at) VALUES('a', {X})", ""},
+		{"ctx-table-name-ends-in-date-paren", "INSERT INTO last_update(v) VALUES({X})", ""},
+		{"ctx-table-name-ends-in-random-paren", "INSERT INTO myrandom(v) VALUES({X})", ""},
 		// in comments
 		{"ctx-block-comment", "SELECT {X} /* time('now') random() */ FROM t", "r"},
 		{"ctx-leading-comment", "/* date() */ SELECT {X} FROM t", "r"},
@@ -659,6 +663,9 @@ CREATE INDEX t_b ON t(b);
 INSERT INTO t VALUES(1, 1, 'x'), (2, 2, 'y'), (3, NULL, 'z');
 CREATE TABLE u(id INTEGER PRIMARY KEY, now, "time(", c);
 INSERT INTO u VALUES(1, '2001-02-03 04:05:06', 'tp', 5);
+CREATE TABLE uptime(id INTEGER PRIMARY KEY, name, at);
+CREATE TABLE last_update(id INTEGER PRIMARY KEY, v);
+CREATE TABLE myrandom(id INTEGER PRIMARY KEY, v);
 `
 
 func c14Open(t *testing.T) *c14DB {
